@@ -666,11 +666,17 @@ def check_foreign(ctx, d, pgpy, suite, case, plain, orig):
                 if not key.pubkey.verify('foreign form', sig):
                     ctx.fail(suite, 'signature by the unlocked foreign key does not verify', case)
                     ok = False
+                if bytes(key) != blob:
+                    ctx.fail(suite, 'foreign protected key exports differently while unlocked', case)
+                    ok = False
         except Exception as ex:
             ctx.fail(suite, 'PGPy cannot unlock a key written by the model: %r' % ex, case)
             ok = False
         if key.is_unlocked or any(v for pk in pkts(key) for v in secret_ints(pk)):
             ctx.fail(suite, 'scope exit left secret material behind', case)
+            ok = False
+        if bytes(key) != blob:
+            ctx.fail(suite, 'foreign protected key exports differently after an unlock scope', case)
             ok = False
         try:
             key.sign('x')
